@@ -237,7 +237,12 @@ def invoke(tool, form, sb, style, outarg, unknown=False):
         elif tool == "chk2plt":
             if form == "api":
                 from amr_kitchen.chk2plt.chk2plt import chk2plt
-                chk2plt(arg, species=["H2", "O2"], gradp=True, species_reactions=True, pltdir=outarg)
+                if os.path.basename(sb.refY) == "plt00005":
+                    # the plotfile of the checkpoint's own step is given as the source of the species names: an input
+                    # of this invocation that sits where the default output would go
+                    chk2plt(arg, target_plotfile=sb.refY, gradp=True, species_reactions=True, pltdir=outarg)
+                else:
+                    chk2plt(arg, species=["H2", "O2"], gradp=True, species_reactions=True, pltdir=outarg)
             else:
                 ref, _ = sb.styled(sb.plt, "abs")
                 a = ["chk2plt", "-c", arg, "-p", sb.refY]
